@@ -127,7 +127,7 @@ def worker(args):
     env = sx.Env(catalog.by_name(name))
     rel = name.split('-')[0] + ('-req' if env.model.opts.get('req') else '') + \
           {None: '', True: '-casc', False: '-nocasc'}[env.model.opts.get('cascade')]
-    ex = sx.Explorer(env, fixtures=(fixture,))
+    ex = sx.Explorer(env, fixtures=(fixture,), ops=env.ops() + [r for r in env.shaping_reads() if r[0] in ('r_attr', 'r_citer', 'r_ccount')])
     presigs = {}
     def visit(env_, fx, hist, x):
         op = hist[-1]
